@@ -3,7 +3,7 @@
 import random
 
 from .. import aegen, boot
-from ..result import CaseTimeout, Result, deadline
+from ..result import CaseTimeout, Result, deadline, keep_going
 
 ID = 'C09'
 LEVEL = 'exploration'
@@ -206,7 +206,7 @@ def run_shard(spec):
         for _ in range(12):
             run_case(rng, root, res, real_dot=True)
     boot.stub_dot()
-    while res.elapsed() < spec['budget']:
+    while keep_going(res, spec):
         run_case(rng, root, res)
         if res.counters['evaluations'] % 200 == 0:
             _prune(root)
